@@ -1,9 +1,10 @@
 (* C05 - extraction of the executable models for the correspondence driver (ExtrOcamlBasic only). *)
-From LibaV Require Import C05.DListDefs C05.SListDefs C05.QueDefs.
+From LibaV Require Import C05.DListDefs C05.SListDefs C05.QueDefs C05.AccDefs.
 Require Extraction.
 Require Import ExtrOcamlBasic.
 Extraction "C05/extracted/c05model.ml"
   dget rd_next rd_prev l_step l_world walk_next walk_prev ring_of ring_of_back
   s_rd t_rd s_step s_world s_rot_orig s_list_of
   vget getq qaddr fuel_of q_step q_world0 q_swap_orig q_swap_elem_orig
-  w_h w_val w_fresh w_trace w_sched q_pool q_siz q_num q_mem.
+  w_h w_val w_fresh w_trace w_sched q_pool q_siz q_num q_mem
+  lx_step l_each_next l_each_prev sx_step s_each q_fore_ q_back_ q_ends q_each q_each_rev q_die_new.
